@@ -25,7 +25,7 @@ TRUSTED = ["BTreeMap iterates in key order; Iterator::take / filter_map"]
 
 def r1(ctx, tables):
     facts = ctx.facts
-    rule = Rule("C10.R1", "only peers that answered are returned, at most num_results", floor=6, engine="A-dom + table")
+    rule = Rule("C10.R1", "only peers that answered are returned, at most num_results", floor=7, engine="A-dom + table")
     for which in ("closest", "predicate"):
         pre = queryx.FILES[which]
         b = facts.one(re.escape(pre + "into_result"))
@@ -155,7 +155,7 @@ def r2_r3(ctx, tables):
 def r4(ctx, tables):
     facts = ctx.facts
     rule = Rule("C10.R4", "completeness shape: NotContacted never falls through; Finished only with k results, nothing in flight, or already finished",
-                floor=6, engine="A-dom + table")
+                floor=7, engine="A-dom + table")
     for which in ("closest", "predicate"):
         table, meta = tables[which]
         nc = table.get(("next", "NotContacted"), set())
@@ -205,6 +205,43 @@ def r4(ctx, tables):
                 ok = False
         rule.check(ok and bool(idle), "[%s] the num_waiting == 0 finish is evaluated after all peers were visited" % which, "%s|idle-in-loop" % which,
                    "[%s] the 'nothing in flight' finish is decided before all candidates were looked at" % which, loc=body.loc(body.line))
+    # pool level: a peer that next() handed out was marked Waiting inside the query; it must reach the caller (who sends the request) on
+    # every path, and no other query may be advanced in between - otherwise the candidate is never contacted, times out, and the lookup
+    # finishes without it
+    pb = facts.one(r"crate::query_pool::QueryPool::<.*>::poll$")
+    rule.analysed(pb)
+    pp = Prov(pb, facts)
+    nexts = [bi for bi, t in pb.calls() if short(t.callee() or "").endswith("query_pool::Query::next") or callee_matches(t, r"query_pool::Query::<.*>::next$")]
+    if not nexts:
+        raise AnchorError("QueryPool::poll: Query::next call not found")
+    binds = []
+    for blk in pb.blocks:
+        if blk.idx not in pb.live_blocks():
+            continue
+        for s_ in blk.stmts:
+            if s_.k == "a" and s_.rv.k in ("use",) and s_.rv.ops[0].place is not None:
+                e = pp.operand(s_.rv.ops[0])
+                # ((next(..) as Waiting).0 as Some).0
+                if e[0] == "field" and e[1][0] == "as" and e[1][2] == "Some" and e[1][1][0] == "field" and e[1][1][1][0] == "as" and e[1][1][1][2] == "Waiting" and \
+                        any(x[0] == "call" and short(x[1]).endswith("Query::next") for x in walk(e)):
+                    binds.append(blk.idx)
+    outs = []
+    for blk in pb.blocks:
+        for s_ in blk.stmts:
+            if s_.k == "a" and s_.rv.k == "agg" and str(s_.rv.j.get("def")).endswith("query_pool::QueryPoolState") and s_.rv.j.get("variant") == "Waiting" and blk.idx in pb.live_blocks():
+                inner = pp.operand(s_.rv.ops[0])
+                if any(x[0] == "agg" and x[1].endswith("Option::Some") for x in roots(inner)) and any(x[0] == "call" and short(x[1]).endswith("Query::next") for x in walk(inner)):
+                    outs.append(blk.idx)
+    binds = sorted(set(binds))
+    if not binds or not outs:
+        raise AnchorError("QueryPool::poll: the binding of the peer handed out by next() (%d) or the Waiting(Some(..)) result (%d) was not found" % (len(binds), len(outs)))
+    for b0 in binds:
+        r_ = pb.reachable(b0, removed_blocks=outs)
+        lost = any(x in r_ for x in pb.return_blocks())
+        again = any(n in pb.reachable(b0) for n in nexts)
+        rule.check(not lost and not again, "QueryPool::poll: a peer handed out by next() is returned to the caller on every path, before any other query is advanced", "pool|peer-handover",
+                   "QueryPool::poll can %s after Query::next handed out a peer (which is already marked Waiting inside the query): that candidate is never contacted and the lookup "
+                   "completes without it" % ("advance another query" if again else "return something else"), loc=pb.loc(pb.line))
     return rule
 
 
